@@ -301,6 +301,14 @@ class Sym:
             return ("agg", "adt:Break", "std::ops::ControlFlow", (("0", args[0]),))
         if name.endswith("FromResidual::from_residual") and len(args) == 1 and args[0][0] == "agg" and args[0][1] in ("adt:None", "adt:Err"):
             return args[0]
+        if name.endswith("FromResidual::from_residual") and len(args) == 1:
+            # `?` on an opaque value, error edge: whatever the residual is, what is built from it is the error variant -- so that a
+            # caller's `?` on an inlined helper's result takes the error edge (and does not "continue" with a failed read)
+            dty = (t.get("dest") or {}).get("ty") or (self.fn.locals[t["dest"]["l"]].get("ty") if t.get("dest") else "") or ""
+            if dty.startswith("std::result::Result") or dty.startswith("core::result::Result"):
+                return ("agg", "adt:Err", "std::result::Result", (("0", ("call", "residual", (args[0],), self._ncalls)),))
+            if dty.startswith("std::option::Option") or dty.startswith("core::option::Option"):
+                return NONE
         # the writer's option builders (`fn large_file(mut self, v) -> Self { self.large_file = v; self }`): a field update of the
         # receiver, so that a builder chain and a struct literal denote the same options value
         mb = re.search(r"^write::FileOptions::(large_file|last_modified_time|compression_method|compression_level|unix_permissions)$", name)
